@@ -65,12 +65,73 @@ template <class J> static void one(size_t idx, const mj::Value& c, const char* f
     if (!(out1 == out2)) t.set("out2", units(out2));
     hz::emit(t);
 }
+// ---- wchar_t instantiation: one wchar_t per code point; the produced wide text is recorded as its UTF-8 encoding, so that the
+// same trace specification lexes it
+static std::wstring widen(const std::string& u8) { std::wstring w; mj::Value cps = jc::cps_of(u8); for (auto& x : cps.a) w.push_back((wchar_t)x.as_int()); return w; }
+static std::string narrow(const std::wstring& w) { mj::Value a = mj::Value::array(); for (wchar_t c : w) a.push((int64_t)(uint32_t)c); return jc::cps_to_utf8(a); }
+template <class J> static J wbuild(const mj::Value& w) {
+    const std::string& k = w[0].str();
+    if (k == "null") return J::null();
+    if (k == "bool") return J(w[1].as_bool());
+    if (k == "int") return J((int64_t)strtoll(digits_of(w[1]).c_str(), nullptr, 10));
+    if (k == "uint") return J((uint64_t)strtoull(digits_of(w[1]).c_str(), nullptr, 10));
+    if (k == "big") return J(widen(digits_of(w[1])), semantic_tag::bigint);
+    if (k == "dbl") { auto b = bv::bytes_of(w[1]); uint64_t u = 0; for (int i = 0; i < 8; ++i) u = (u << 8) | b[i]; double d; memcpy(&d, &u, 8); return J(d); }
+    if (k == "str") return J(widen(jc::cps_to_utf8(w[1])));
+    if (k == "arr") { J a(json_array_arg); for (auto& e : w[1].a) a.push_back(wbuild<J>(e)); return a; }
+    if (k == "obj") { J o(json_object_arg); for (auto& kv : w[1].a) o.insert_or_assign(widen(jc::cps_to_utf8(kv[0])), wbuild<J>(kv[1])); return o; }
+    throw std::runtime_error("wbuild " + k);
+}
+template <class J> static mj::Value wproject(const J& j) {
+    mj::Value r = mj::Value::array();
+    switch (j.type()) {
+        case json_type::null: r.push("null"); break;
+        case json_type::boolean: r.push("bool"); r.push(j.template as<bool>()); break;
+        case json_type::int64: r.push("int"); r.push(units(std::to_string(j.template as<int64_t>()))); break;
+        case json_type::uint64: { uint64_t u = j.template as<uint64_t>(); r.push(u <= (uint64_t)INT64_MAX ? "int" : "uint"); r.push(units(std::to_string(u))); break; }
+        case json_type::float16: case json_type::float64: { double d = j.template as<double>(); uint64_t u; memcpy(&u, &d, 8); mj::Value b = mj::Value::array(); for (int i = 7; i >= 0; --i) b.push((int)((u >> (8 * i)) & 0xff)); r.push("dbl"); r.push(b); break; }
+        case json_type::string: { std::string s8 = narrow(j.template as<std::wstring>());
+            if (j.tag() == semantic_tag::bigint) { r.push("big"); r.push(units(s8)); } else if (j.tag() == semantic_tag::bigdec) { r.push("bigdec"); r.push(units(s8)); } else { r.push("str"); r.push(jc::cps_of(s8)); } break; }
+        case json_type::array: { r.push("arr"); mj::Value a = mj::Value::array(); for (const auto& e : j.array_range()) a.push(wproject(e)); r.push(a); break; }
+        case json_type::object: { r.push("obj"); mj::Value a = mj::Value::array(); for (const auto& kv : j.object_range()) { mj::Value p = mj::Value::array(); p.push(jc::cps_of(narrow(std::wstring(kv.key())))); p.push(wproject(kv.value())); a.push(p); } r.push(a); break; }
+        default: r.push("other"); break;
+    }
+    return r;
+}
+static basic_json_options<wchar_t> wmkopts(const mj::Value& o) {
+    auto g = [&](int i) { return (int)o[i - 1].as_int(); };
+    static const int indents[] = {0, 1, 4}; static const size_t lens[] = {120, 1, 8, 40};
+    basic_json_options<wchar_t> op;
+    op.indent_size((uint8_t)indents[g(2)]).indent_char(g(3) ? L'\t' : L' ').spaces_around_colon((spaces_option)g(4)).spaces_around_comma((spaces_option)g(5))
+      .pad_inside_object_braces(g(6) != 0).pad_inside_array_brackets(g(7) != 0)
+      .root_line_splits((line_split_kind)g(8)).object_object_line_splits((line_split_kind)g(9)).object_array_line_splits((line_split_kind)g(10))
+      .array_array_line_splits((line_split_kind)g(11)).array_object_line_splits((line_split_kind)g(12))
+      .new_line_chars(g(14) ? L"\r\n" : L"\n").escape_all_non_ascii(g(15) != 0).escape_solidus(g(16) != 0);
+    if (g(13)) op.line_length_limit(lens[g(13)]);
+    return op;
+}
+template <class J> static void wone(size_t idx, const mj::Value& c, const char* flavour) {
+    mj::Value t = hz::rec("trace"); t.set("idx", (int64_t)idx); t.set("flavour", flavour); t.set("v", c["v"]); t.set("o", c["o"]);
+    bool pretty = c["o"][0].as_int() != 0; auto op = wmkopts(c["o"]);
+    std::wstring out1, out2; std::string err; bool ok = true; mj::Value back = mj::Value::array(); back.push("none");
+    try {
+        J v = wbuild<J>(c["v"]);
+        if (pretty) v.dump_pretty(out1, op); else v.dump(out1, op);
+        J p = J::parse(out1);
+        back = wproject(p);
+        if (pretty) p.dump_pretty(out2, op); else p.dump(out2, op);
+    } catch (const std::exception& e) { ok = false; err = e.what(); }
+    t.set("ok", ok); t.set("err", err); t.set("out1", units(narrow(out1))); t.set("back", back); t.set("same", out1 == out2);
+    if (!(out1 == out2)) t.set("out2", units(narrow(out2)));
+    hz::emit(t);
+}
 int main(int argc, char** argv) {
     auto args = hz::parse_args(argc, argv);
     long ncases = 0;
     hz::for_each_case(args, [&](size_t idx, const std::string& line) {
         mj::Value c = mj::parse(line); ++ncases;
         one<json>(idx, c, "json"); one<ojson>(idx, c, "ojson");
+        wone<wjson>(idx, c, "wjson"); wone<wojson>(idx, c, "wojson");
     });
     mj::Value s = hz::rec("stat"); s.set("cases", (int64_t)ncases); hz::emit(s);
     return 0;
